@@ -353,4 +353,180 @@ theorem sphere_closedOriented (nt np : Nat) (hnt : 3 ≤ nt) (hnp : 2 ≤ np) :
 example : ClosedOriented (sphereIndices 3 2) 5 := sphere_closedOriented 3 2 (by omega) (by omega)
 example : ClosedOriented (sphereIndices 7 5) 30 := sphere_closedOriented 7 5 (by omega) (by omega)
 
+/-! ## hemisphere (a surface whose boundary is its equator), capsule -/
+
+/-- **index shift** (`idx[k] += base`): edges are shifted -/
+theorem mem_edges_shift (base : Nat) (T : List Tri) (a b : Nat) :
+    (a, b) ∈ edges (shiftIndices base T) ↔ base ≤ a ∧ base ≤ b ∧ (a - base, b - base) ∈ edges T := by
+  induction T with
+  | nil => simp [edges, shiftIndices]
+  | cons t T ih =>
+    obtain ⟨x, y, z⟩ := t
+    simp only [shiftIndices, List.map_cons, edges_cons, List.mem_append] at ih ⊢
+    rw [ih]
+    simp only [triEdges, List.mem_cons, Prod.mk.injEq, List.not_mem_nil, or_false]
+    constructor
+    · rintro ((h | h | h) | h)
+      · exact ⟨by omega, by omega, Or.inl (Or.inl (by omega))⟩
+      · exact ⟨by omega, by omega, Or.inl (Or.inr (Or.inl (by omega)))⟩
+      · exact ⟨by omega, by omega, Or.inl (Or.inr (Or.inr (by omega)))⟩
+      · exact ⟨h.1, h.2.1, Or.inr h.2.2⟩
+    · rintro ⟨h1, h2, (h | h | h) | h⟩
+      · exact Or.inl (Or.inl (by omega))
+      · exact Or.inl (Or.inr (Or.inl (by omega)))
+      · exact Or.inl (Or.inr (Or.inr (by omega)))
+      · exact Or.inr ⟨h1, h2, h⟩
+
+private theorem edges_shift (base : Nat) (T : List Tri) :
+    edges (shiftIndices base T) = (edges T).map fun e => (e.1 + base, e.2 + base) := by
+  induction T with
+  | nil => simp [edges, shiftIndices]
+  | cons t T ih =>
+    obtain ⟨x, y, z⟩ := t
+    simp only [shiftIndices, List.map_cons, edges_cons, List.map_append] at ih ⊢
+    rw [ih]; simp [triEdges]
+
+theorem nodup_edges_shift (base : Nat) (T : List Tri) (h : (edges T).Nodup) :
+    (edges (shiftIndices base T)).Nodup := by
+  rw [edges_shift]
+  apply h.map
+  rintro ⟨a, b⟩ ⟨c, d⟩ h
+  simp only [Prod.mk.injEq] at h ⊢
+  omega
+
+/-- edges of `unit_hemisphere(ntheta, p)`: a stack of `p - 1` rings from the equator (circle `0`) and the polar fan -/
+def HemiEdge (nt p a b : Nat) : Prop :=
+  StackEdge 0 nt (p - 1) a b ∨ FanEdge ((p - 1) * nt) ((p - 1) * nt + nt) nt a b
+
+theorem hemisphereIndices_eq (nt p : Nat) (hp : 1 ≤ p) :
+    hemisphereIndices nt p = ringStack 0 nt (p - 1) ++ degTopRing ((p - 1) * nt) ((p - 1) * nt + nt) nt := by
+  obtain ⟨q, rfl⟩ : ∃ q, p = q + 1 := ⟨p - 1, by omega⟩
+  simp only [hemisphereIndices, hemisphereNumVertices, ringStack, Nat.zero_add, Nat.add_sub_cancel, Nat.add_mul,
+    Nat.one_mul]
+
+theorem mem_edges_hemisphere (nt p a b : Nat) (hnt : 1 ≤ nt) (hp : 1 ≤ p) :
+    (a, b) ∈ edges (hemisphereIndices nt p) ↔ HemiEdge nt p a b := by
+  rw [hemisphereIndices_eq nt p hp]
+  simp only [edges_append, List.mem_append, mem_edges_degTopRing _ _ _ _ _ hnt, mem_edges_ringStack _ _ _ _ _ hnt,
+    HemiEdge]
+
+/-- the hemisphere is closed up to its equator, traversed backwards -/
+theorem hemiEdge_swap {nt p a b : Nat} (h : HemiEdge nt p a b) : HemiEdge nt p b a ∨ Bwd 0 nt a b := by
+  rcases h with h | h
+  · rcases stackEdge_swap h with h | h | h
+    · exact Or.inl (Or.inl h)
+    · exact Or.inr h
+    · left; right; exact fanEdge_of_bwd (by simpa using h)
+  · rcases fanEdge_swap h with h | h
+    · exact Or.inl (Or.inr h)
+    · rcases hq : p - 1 with _ | q
+      · rw [hq] at h; right; simpa using h
+      · left; left; rw [hq] at h ⊢; exact stackEdge_of_fwd (by omega) (by simpa using h)
+
+theorem hemiEdge_of_bwd {nt p a b : Nat} (h : Bwd 0 nt a b) : HemiEdge nt p a b := by
+  rcases hq : p - 1 with _ | q
+  · right; rw [hq]; exact fanEdge_of_bwd (by simpa using h)
+  · left; rw [hq]; exact stackEdge_of_bwd (by omega) h
+
+theorem hemiEdge_bounds {nt p a b : Nat} (hn : 3 ≤ nt) (h : HemiEdge nt p a b) :
+    a < (p - 1) * nt + nt + 1 ∧ b < (p - 1) * nt + nt + 1 ∧ a ≠ b := by
+  rcases h with h | h
+  · have := stackEdge_bounds (by omega) h; omega
+  · simp only [FanEdge, Bwd] at h; omega
+
+/-- the only hemisphere edges inside the equator are the equator's backward edges -/
+theorem hemiEdge_low {nt p a b : Nat} (h : HemiEdge nt p a b) (ha : a < nt) (hb : b < nt) : Bwd 0 nt a b := by
+  rcases h with h | h
+  · exact stackEdge_low h (by omega) (by omega)
+  · rcases hq : p - 1 with _ | q
+    · rw [hq] at h; simp only [FanEdge, Nat.zero_mul, Nat.zero_add] at h
+      rcases h with h | h | h
+      · omega
+      · omega
+      · exact h
+    · rw [hq] at h; simp only [FanEdge, Bwd, Nat.add_mul, Nat.one_mul] at h; omega
+
+theorem nodup_edges_hemisphere (nt p : Nat) (hnt : 3 ≤ nt) (hp : 1 ≤ p) : (edges (hemisphereIndices nt p)).Nodup := by
+  rw [hemisphereIndices_eq nt p hp, edges_append]
+  apply nodup_append_of (nodup_edges_ringStack _ _ _ hnt) (nodup_edges_degTopRing _ _ _ hnt (by omega))
+  rintro ⟨a, b⟩ h1 h2
+  rw [mem_edges_ringStack _ _ _ _ _ (by omega)] at h1
+  rw [mem_edges_degTopRing _ _ _ _ _ (by omega)] at h2
+  have hb := stackEdge_bounds (by omega) h1
+  have hh := stackEdge_high (by omega) h1
+  simp only [FanEdge, Bwd, Nat.zero_add] at h2 hh
+  omega
+
+example : capsuleIndices 3 2 = [(3, 0, 1), (3, 1, 2), (3, 2, 0), (4, 7, 5), (5, 7, 6), (6, 7, 4),
+    (5, 1, 0), (0, 4, 5), (6, 2, 1), (1, 5, 6), (4, 0, 2), (2, 6, 4)] := by decide
+
+theorem mem_edges_capsule (nt np a b : Nat) (hnt : 1 ≤ nt) (hnp : 2 ≤ np) :
+    (a, b) ∈ edges (capsuleIndices nt np) ↔
+      HemiEdge nt (np / 2) b a ∨
+      (hemisphereNumVertices nt (np / 2) ≤ a ∧ hemisphereNumVertices nt (np / 2) ≤ b ∧
+        HemiEdge nt (np / 2) (a - hemisphereNumVertices nt (np / 2)) (b - hemisphereNumVertices nt (np / 2))) ∨
+      RingEdge 0 (hemisphereNumVertices nt (np / 2)) nt a b := by
+  have hp : 1 ≤ np / 2 := by omega
+  simp only [capsuleIndices, edges_append, List.mem_append, mem_edges_reverse, mem_edges_shift,
+    mem_edges_hemisphere _ _ _ _ hnt hp, mem_edges_ring _ _ _ _ _ hnt, or_assoc]
+
+/-- **`canonical_capsule` / `Capsule::to_trimesh`, every `ntheta_subdiv ≥ 3` and `nphi_subdiv ≥ 2`**: the index buffer
+(two hemispheres of `nphi/2` circles each, the bottom one re-oriented, the top one index-shifted, joined by one ring)
+is a closed, consistently oriented surface on its `2·((nphi/2)·ntheta + 1)` vertices. -/
+theorem capsule_closedOriented (nt np : Nat) (hnt : 3 ≤ nt) (hnp : 2 ≤ np) :
+    ClosedOriented (capsuleIndices nt np) (capsuleNumVertices nt np) := by
+  have hm := fun a b => mem_edges_capsule nt np a b (by omega) hnp
+  have hp : 1 ≤ np / 2 := by omega
+  have hB : hemisphereNumVertices nt (np / 2) = (np / 2 - 1) * nt + nt + 1 := by
+    obtain ⟨q, hq⟩ : ∃ q, np / 2 = q + 1 := ⟨np / 2 - 1, by omega⟩
+    rw [hq]; simp only [hemisphereNumVertices, Nat.add_sub_cancel, Nat.add_mul, Nat.one_mul]
+  show ClosedOriented _ (2 * hemisphereNumVertices nt (np / 2))
+  apply closedOriented_of
+  · intro a b h; rw [hm] at h
+    rcases h with h | ⟨h1, h2, h⟩ | h
+    · have := hemiEdge_bounds hnt h; omega
+    · have := hemiEdge_bounds hnt h; omega
+    · have := ringEdge_bounds (by omega) h; omega
+  · intro a b h; rw [hm] at h
+    rcases h with h | ⟨h1, h2, h⟩ | h
+    · have := hemiEdge_bounds hnt h; omega
+    · have := hemiEdge_bounds hnt h; omega
+    · simp only [RingEdge, Bwd] at h; omega
+  · simp only [capsuleIndices, edges_append]
+    apply nodup_append_of
+    · apply nodup_append_of (nodup_edges_reverse _ (nodup_edges_hemisphere _ _ hnt hp))
+        (nodup_edges_shift _ _ (nodup_edges_hemisphere _ _ hnt hp))
+      rintro ⟨a, b⟩ h1 h2
+      rw [mem_edges_reverse, mem_edges_hemisphere _ _ _ _ (by omega) hp] at h1
+      rw [mem_edges_shift] at h2
+      have := hemiEdge_bounds hnt h1; omega
+    · exact nodup_edges_ring _ _ _ hnt (by left; rw [hB]; omega)
+    · rintro ⟨a, b⟩ h1 h2
+      rw [mem_edges_ring _ _ _ _ _ (by omega)] at h2
+      rw [List.mem_append, mem_edges_reverse, mem_edges_shift, mem_edges_hemisphere _ _ _ _ (by omega) hp,
+        mem_edges_hemisphere _ _ _ _ (by omega) hp] at h1
+      have hr := ringEdge_bounds (by omega) h2
+      rcases h1 with h1 | ⟨ha, hb, h1⟩
+      · have hb := hemiEdge_bounds hnt h1
+        have hl := hemiEdge_low h1 (by omega) (by omega)
+        simp only [RingEdge, Bwd] at h2 hl; omega
+      · have hb' := hemiEdge_bounds hnt h1
+        have hl := hemiEdge_low h1 (by omega) (by omega)
+        simp only [RingEdge, Bwd] at h2 hl; omega
+  · intro a b h; rw [hm] at h ⊢
+    rcases h with h | ⟨ha, hb, h⟩ | h
+    · rcases hemiEdge_swap h with h | h
+      · exact Or.inl h
+      · exact Or.inr (Or.inr (ringEdge_of_bwd_lower h))
+    · rcases hemiEdge_swap h with h | h
+      · exact Or.inr (Or.inl ⟨hb, ha, h⟩)
+      · right; right; apply ringEdge_of_fwd_upper; simp only [Bwd] at h ⊢; omega
+    · rcases ringEdge_swap h with h | h | h
+      · exact Or.inr (Or.inr h)
+      · exact Or.inl (hemiEdge_of_bwd h)
+      · right; left; refine ⟨?_, ?_, hemiEdge_of_bwd ?_⟩ <;> simp only [Bwd] at h ⊢ <;> omega
+
+example : ClosedOriented (capsuleIndices 3 2) 8 := capsule_closedOriented 3 2 (by omega) (by omega)
+example : ClosedOriented (capsuleIndices 5 7) 32 := capsule_closedOriented 5 7 (by omega) (by omega)
+
 end C19
